@@ -2116,8 +2116,12 @@ find_include(Filename &filename, bool angle_quotes, CPPFile::Source &source) con
     }
   }
 
-  // Now search the angle-include-path
-  if (angle_quotes && filename.resolve_filename(_angle_include_path)) {
+  // Now search the angle-include-path.  An empty DSearchPath is treated by
+  // resolve_filename() as if it contained ".", but with no system directories
+  // given there is nowhere to look for a (relative) angle-quoted filename.
+  if (angle_quotes &&
+      (!_angle_include_path.is_empty() || !filename.is_local()) &&
+      filename.resolve_filename(_angle_include_path)) {
     source = CPPFile::S_system;
     return true;
   }
